@@ -85,6 +85,7 @@ type env struct {
 	c    caseT
 	log  *e2e.Log
 	cls  string
+	end  string // effective way the connections end
 	salt uint32
 
 	recs    sync.Map // server-side remote addr -> *connRec
@@ -160,7 +161,7 @@ func (e *env) onMessage(c *websocket.Conn, mt websocket.MessageType, data []byte
 		e.log.Add("message.exit", rec.key, int64(hd.Seq), "")
 		atomic.AddInt32(&rec.insideMsg, -1)
 	}()
-	cls := e.cls
+	cls := e.clsOf(rec)
 	if in > 1 {
 		e.violate("c14:"+cls+":message-callbacks-overlap", fmt.Sprintf("%d message callbacks of connection %s run at the same time (entered for message seq %d)\nevents of the connection:\n%s", in, rec.key, hd.Seq, e.log.Slice(rec.key, 40)))
 	}
@@ -199,7 +200,7 @@ func (e *env) onMessage(c *websocket.Conn, mt websocket.MessageType, data []byte
 			time.Sleep(time.Duration(20+hd.Seq%200) * time.Microsecond)
 		}
 	}
-	if e.c.End == "server-close" && hd.Seq == e.c.InMsgs/2 {
+	if e.end == "server-close" && hd.Seq == e.c.InMsgs/2 {
 		e.log.Add("server.close", rec.key, int64(hd.Seq), "")
 		if hd.Seq%2 == 0 {
 			go func() { _ = c.Close() }()
@@ -218,7 +219,7 @@ func (e *env) onClose(c *websocket.Conn, err error) {
 	if n == 1 {
 		atomic.StoreInt64(&rec.closeEntry, t)
 	}
-	cls := e.cls
+	cls := e.clsOf(rec)
 	if n > 1 {
 		e.violate("c14:"+cls+":close-callback-count", fmt.Sprintf("connection %s: the close callback ran %d times\nevents of the connection:\n%s", rec.key, n, e.log.Slice(rec.key, 40)))
 	}
